@@ -205,7 +205,7 @@ class LinearizedADMM(Optimizer):
         Compute the :math:`\ell_2` norm of the dual residual
 
         .. math::
-            \norm{\mb{z}^{(k)} - \mb{z}^{(k-1)}}_2 \;.
+            \norm{C^H \left( \mb{z}^{(k)} - \mb{z}^{(k-1)} \right)}_2 \;.
 
         Returns:
             Current norm of dual residual.
